@@ -198,7 +198,7 @@ def normalise_fw(events, dev: hostobs.Devices, *, keep_config=False, user_pinmod
             out.append(("delay", ev[1]))
         elif k == "ser":
             out.append(ev)
-        elif k in ("serial_begin", "millis", "micros", "heap", "note"):
+        elif k in ("serial_begin", "millis", "micros", "heap", "note", "flag"):
             if keep_config and k == "serial_begin":
                 out.append(ev)
             continue
@@ -292,7 +292,7 @@ def normalise_host(events, dev: hostobs.Devices):
             else:
                 out.append(snap)
             continue
-        if k in ("serial_begin", "time.sleep", "servo_attach"):
+        if k in ("serial_begin", "time.sleep", "servo_attach", "pyheap"):
             continue
         if k == "dwrite":
             v = ev[2]
@@ -696,8 +696,15 @@ def run_firmware_concrete(cpp: str, passes: int, inputs: Dict[str, float], extra
                 except ValueError:
                     continue
         env = dict(os.environ, VERIF_INPUTS=base + ".in")
+        env["ASAN_OPTIONS"] = "detect_leaks=0:abort_on_error=0:exitcode=77"
+        env["UBSAN_OPTIONS"] = "halt_on_error=1:exitcode=77:print_stacktrace=0"
         r = subprocess.run([base + ".bin", str(passes)], capture_output=True, text=True, env=env, timeout=60)
         if r.returncode != 0:
+            if "Sanitizer" in r.stderr or "runtime error" in r.stderr:
+                first = [ln for ln in r.stderr.splitlines() if "ERROR" in ln or "runtime error" in ln][:1]
+                evs = parse_runtime_output(r.stdout)
+                evs.append(("flag", "sanitizer", (first[0] if first else r.stderr[:200])[:200]))
+                return evs, ""
             return None, f"binary exit {r.returncode}: {r.stdout[-300:]} {r.stderr[-300:]}"
         return parse_runtime_output(r.stdout), ""
     finally:
@@ -786,17 +793,22 @@ def run_host_concrete(src: str, passes: int, inputs: Dict[str, float], prestate=
 
 
 # ------------------------------------------------------------------ the differential obligation
+def _sample_heap(ex, st):
+    st.events.append(("heap", st.user.get("heap_blocks", 0), st.heap_live))
+
+
 class ScriptDiff:
     def __init__(self, oid, src, passes=2, *, max_block_visits=40, max_paths=600, timeout_ms=20000,
                  budget_s=240, check_ub=False, claim_timeout_ms=90000, prestate=None, fw_only_check=None,
-                 compare=True):
+                 compare=True, replay_flags=()):
         self.oid, self.src, self.passes = oid, src, passes
         self.max_block_visits, self.max_paths = max_block_visits, max_paths
         self.timeout_ms, self.budget_s, self.check_ub = timeout_ms, budget_s, check_ub
         self.claim_timeout_ms = claim_timeout_ms
         self.prestate = prestate          # object with host(g, hw) and fw(ex, st): havoc state after setup
-        self.fw_only_check = fw_only_check  # monitor over the raw firmware events of a path -> [problem strings]
+        self.fw_only_check = fw_only_check  # monitor(raw firmware events, devices, host events) -> [problem strings]
         self.compare = compare
+        self.replay_flags = replay_flags
 
     def run(self) -> Result:
         t0 = time.time()
@@ -863,8 +875,9 @@ class ScriptDiff:
             entries = [(c, []) for c in mod.ctors] + [("#setup", []), ("_Z5setupv", [])]
             if self.prestate:
                 entries.append((self.prestate.fw, []))
+            entries.append((_sample_heap, []))
             for _ in range(self.passes):
-                entries += [("#loop", []), ("_Z4loopv", [])]
+                entries += [("#loop", []), ("_Z4loopv", []), (_sample_heap, [])]
             fpaths = []
 
             def on_f(pr):
@@ -875,21 +888,29 @@ class ScriptDiff:
                 if pr.status != "ok":
                     if pr.status.startswith("ended:infeasible") or pr.status == "ended:assume-false":
                         return
-                    inconc.append("firmware side: " + pr.status)
-                    return
+                    if not (pr.flags and self.fw_only_check is not None and pr.status.startswith("ended:")
+                            and not pr.status.startswith("ended:truncated")):
+                        inconc.append("firmware side: " + pr.status)
+                        return
+                    # the path stopped at a memory/UB monitor hit: let the monitor report it
                 if any(n[0] == "imprecise" for n in pr.notes):
                     inconc.append("firmware side: string op on rendered number")
                     return
                 if self.fw_only_check is not None:
-                    problems = self.fw_only_check(pr.events, dev)
+                    evs_m = list(pr.events) + [("flag",) + tuple(f) for f in pr.flags]
+                    problems = self.fw_only_check(evs_m, dev, out.events)
                     if problems:
                         r, m = ex.model_for()
                         if r == "sat":
                             fev, err = run_firmware_concrete(cpp + (self.prestate.cpp(m) if self.prestate else ""),
-                                                             self.passes, dict(m))
-                            if fev is not None and self.fw_only_check(fev, dev):
+                                                             self.passes, dict(m), extra_flags=self.replay_flags)
+                            hev = None
+                            if fev is not None:
+                                hout, _hw = run_host_concrete(self.src, self.passes, dict(m), self.prestate)
+                                hev = hout.events if hout.status == "ok" else None
+                            if fev is not None and hev is not None and self.fw_only_check(fev, dev, hev):
                                 cex = (m, "monitor: " + problems[0], pr.state.inputs, out.inputs)
-                                monitor_hit.append(self.fw_only_check(fev, dev)[0])
+                                monitor_hit.append(self.fw_only_check(fev, dev, hev)[0])
                                 return
                             inconc.append("monitor violation did not replay: " + problems[0])
                         elif r == "unknown":
